@@ -84,7 +84,7 @@ void h_from_znx64(void) {
 
 /* ------------------------------------------------------------------ double -> int64 with divisor, within 1/2 */
 #ifndef DOMLOG
-#define DOMLOG ((LOG2BOUND <= 50) ? 50 : 52)
+#define DOMLOG ((LOG2BOUND <= 52) ? LOG2BOUND : 52) /* the declared bound; beyond 2^52 every double is an integer and the harness' own error term would round */
 #endif
 void h_to_znx64(void) {
   vf_cpu_avx = AVX;
@@ -112,6 +112,22 @@ void h_to_znx64(void) {
     VF_ASSERT(out[i] >= -(INT64_C(1) << 52) && out[i] <= (INT64_C(1) << 52), "result magnitude");
     double e = (double)out[i] * d - x[i];
     VF_ASSERT(e <= d / 2 && e >= -d / 2, "double -> int64: result within 1/2 of x/divisor");
+  }
+  VF_REACH();
+}
+
+/* kernel selection of init_reim_to_znx64_precomp for EVERY declared bound (symbolic log2bound): the fast kernel whose domain is |x/d| < 2^50
+ * (decided by to_znx64/direct/bnd50) may only be selected for declared bounds <= 50 */
+void reim_to_znx64_avx2_bnd50_fma(const REIM_TO_ZNX64_PRECOMP* precomp, int64_t* r, const void* x);
+void h_to_znx64_select(void) {
+  vf_cpu_avx = AVX;
+  REIM_TO_ZNX64_PRECOMP p;
+  uint32_t lb = (uint32_t)vf_u64();
+  VF_ASSUME(lb <= 64);
+  void* r = init_reim_to_znx64_precomp(&p, M, pow2(DIVLOG), lb);
+  if (r) {
+    VF_ASSERT(r == &p && p.m == M && p.divisor == pow2(DIVLOG), "init records dimension and divisor");
+    VF_ASSERT(!(p.function == reim_to_znx64_avx2_bnd50_fma && lb > 50), "the kernel limited to |x/d| < 2^50 is selected only for declared bounds <= 50");
   }
   VF_REACH();
 }
